@@ -66,6 +66,31 @@ INDEX_CORNERS = [0, 1, 2, H - 2, H - 1, H, H + 1, H + 2, 2 * H - 2, 2 * H - 1]
 MEANINGFUL = [44, 49, 84, 83696968, 39, 2, 32, 128169, 707764, 12, 24, 75, 76, 255, 256, 520, 1000, 16384, 65535, 65536, 1000000]
 
 
+_MEANINGFUL_NOW = None
+
+
+def meaningful():
+    """MEANINGFUL plus every number below 2^32 that the code under test holds NOW and the pinned tree did not (vpkg.harvest):
+    a number a change introduces - a magic index, a special account, a new limit - is tried as account / index / count together
+    with its neighbours."""
+    global _MEANINGFUL_NOW
+    if _MEANINGFUL_NOW is None:
+        out = list(MEANINGFUL)
+        try:
+            from . import harvest
+            from .core import REPO
+            base = harvest.baseline()
+            new = sorted(k for k in harvest.ints(REPO) if 0 <= k < (1 << 32) and k not in base)[:64]
+            for k in new:
+                for v in (k, k - 1, k + 1):
+                    if 0 <= v < (1 << 32) and v not in out:
+                        out.append(v)
+        except Exception:  # noqa
+            pass
+        _MEANINGFUL_NOW = out
+    return _MEANINGFUL_NOW
+
+
 def account(rnd):
     r = rnd.random()
     if r < 0.25:
@@ -77,14 +102,19 @@ def account(rnd):
     if r < 0.48:
         return H - 1
     if r < 0.72:
-        return rnd.choice(MEANINGFUL)
+        return rnd.choice(meaningful()) % H
     return rnd.randrange(0, H)
 
 
 def index(rnd, hardened=None):
     """(tag, i). hardened: None=both sides, True/False restricts."""
     r = rnd.random()
-    if hardened is None:
+    if r > 0.92:
+        # numbers that mean something elsewhere in the library, or that a change has just written into it
+        i = rnd.choice(meaningful()) % H
+        if hardened or (hardened is None and rnd.random() < 0.4):
+            i += H
+    elif hardened is None:
         if r < 0.35:
             i = rnd.choice(INDEX_CORNERS)
         elif r < 0.5:
